@@ -27,6 +27,9 @@ pub enum Re {
 pub enum ClassItem {
     Ch(char),
     Range(char, char),
+    /// a backslash-escaped character inside the class: `\-`, `\&`, `\~`, `\]`, `\^` denote the
+    /// character itself (between two letters `a\-c` is three characters, not a range)
+    Esc(char),
 }
 
 #[derive(Serialize, Deserialize, Clone, Copy, Debug, PartialEq, Eq)]
@@ -207,6 +210,10 @@ impl Re {
                             s.push('-');
                             s.push(*b);
                         }
+                        ClassItem::Esc(c) => {
+                            s.push('\\');
+                            s.push(*c);
+                        }
                     }
                 }
                 s.push(']');
@@ -292,7 +299,13 @@ fn gen_atom(ch: &mut Choices, flags: &AlFlags, depth: usize) -> Re {
             // class
             let n = ch.range(1, 3);
             let mut items = vec![];
-            for _ in 0..n {
+            for k in 0..n {
+                if k > 0 && ch.chance(1, 5) {
+                    // an escaped class metacharacter between two members
+                    items.push(ClassItem::Esc(*ch.choose(&['-', '-', '&', '~', ']', '^'])));
+                    items.push(ClassItem::Ch(*ch.choose(&['c', 'b', 'z', '1'])));
+                    continue;
+                }
                 if ch.chance(1, 3) {
                     items.push(if ch.chance(1, 2) {
                         ClassItem::Range('a', 'c')
@@ -545,7 +558,15 @@ pub struct RenderOpts {
     /// by spaces, bit 3 = by a tab
     #[serde(default)]
     pub decl_layout: Vec<u8>,
+    /// separators between the names of a start-state declaration with several names (index into
+    /// STATE_SEPS, rotated): any Pattern_White_Space that does not end the line
+    #[serde(default)]
+    pub state_sep: usize,
 }
+
+// (exactly one blank character: the implementation splits at every single white-space character
+// and rejects the empty "name" between two of them)
+pub const STATE_SEPS: &[&str] = &[" ", " ", "\t", "\u{85}", "\u{200e}", "\u{200f}"];
 
 pub const DIRECTIVES_INCL: &[&str] = &["%s", "%S", "%start", "%state", "%Sx9", "%s"];
 pub const DIRECTIVES_EXCL: &[&str] = &["%x", "%X", "%xclusive", "%xstart", "%Xs", "%x"];
@@ -565,6 +586,7 @@ impl RenderOpts {
             bare_alt: vec![false; n],
             directive_variant: 0,
             decl_layout: vec![],
+            state_sep: 0,
         }
     }
     pub fn generate(ch: &mut Choices, n: usize, header: bool) -> Self {
@@ -581,6 +603,7 @@ impl RenderOpts {
             bare_alt: (0..n).map(|_| ch.chance(1, 2)).collect(),
             directive_variant: ch.pick(6),
             decl_layout: (0..6).map(|_| if ch.chance(1, 3) { 1 + ch.pick(15) as u8 } else { 0 }).collect(),
+            state_sep: ch.pick(STATE_SEPS.len()),
         }
     }
 }
@@ -652,8 +675,11 @@ pub fn render(al: &AL, o: &RenderOpts) -> (String, Layout) {
             decl_prefix(o, line, &mut s);
             line += 1;
             s.push_str(if excl { DIRECTIVES_EXCL[dv] } else { DIRECTIVES_INCL[dv] });
+            let mut first = true;
             while i < al.states.len() && al.states[i].1 == excl {
-                s.push(' ');
+                // (between the directive and the first name always a plain blank)
+                s.push_str(if first { " " } else { STATE_SEPS[(o.state_sep + i) % STATE_SEPS.len()] });
+                first = false;
                 let st = s.len();
                 s.push_str(&al.states[i].0);
                 lay.state_names.push((st, s.len()));
